@@ -48,6 +48,7 @@ pub fn parse_case(case: &str) -> Vec<M> {
     case.split(';')
         .filter(|s| !s.is_empty())
         .map(|s| {
+            // (a 6th field, the boot number of clean traces, is ground truth for the oracle only)
             let f: Vec<u64> = s.split(',').map(|x| x.trim().parse().unwrap()).collect();
             M { ecu: f[0] as u8, recv: f[1], ts: f[2] as u32, has_ts: f[3] == 1, ctrl: f[4] == 1 }
         })
@@ -193,6 +194,96 @@ impl Area for Lc {
     fn gen(&self, rng: &mut Rng, tier: u32) -> String {
         let maxn = if tier == 0 { 16 } else { 40 };
         fmt_case(&gen_random(rng, maxn))
+    }
+    fn run(&self, case: &str) -> String {
+        run_msgs(&parse_case(case))
+    }
+}
+
+// ---------------------------------------------------------------------------------------------
+/// C08: cleanly separated power cycles with ground truth (`ecu,recv,ts,1,0,boot`)
+pub struct Lc8;
+
+fn gen_clean(rng: &mut Rng, tier: u32) -> String {
+    let necu = 1 + rng.below(if tier > 0 { 4 } else { 3 }) as usize;
+    let mut streams: Vec<Vec<(usize, usize, u64, u64)>> = vec![]; // ecu, boot, recv, ts_dms
+    for e in 0..necu {
+        let mut st = vec![];
+        let t = S + rng.below(51) * 1_000_000;
+        let mut prev: Option<(u64, u64, u64)> = None; // S, E, last recv
+        let nboots = 1 + rng.below(if tier > 0 { 6 } else { 4 });
+        for b in 0..nboots {
+            let n = *rng.pick(&[1usize, 2, 3, 5, 8]);
+            let first = match rng.below(4) {
+                0 | 1 => 0,
+                2 => 1 + rng.below(300_000),
+                _ => 1 + rng.below(50_000),
+            };
+            let mut ts: Vec<u64> = vec![first];
+            for _ in 1..n {
+                let span = *rng.pick(&[1000u64, 100_000, 3_000_000]);
+                ts.push(first + rng.below(span + 1));
+            }
+            ts.sort();
+            ts.dedup();
+            let maxts = ts.iter().max().unwrap() * 100;
+            let mints = ts.iter().min().unwrap() * 100;
+            let mut s_b;
+            let mut tries = 0;
+            loop {
+                s_b = match prev {
+                    None => t,
+                    Some((_, pe, _)) => match rng.below(10) {
+                        0..=5 => {
+                            let d = *rng.pick(&[1u64, 1000, 1_000_000, 15_000_000, 200_000_000]);
+                            pe + d
+                        }
+                        6 | 7 => pe.saturating_sub(rng.below(30_000_001)),
+                        _ => pe.saturating_sub(rng.below(2_000_000)),
+                    },
+                };
+                tries += 1;
+                // clean: every message of this boot is received after every message of the previous boot (off-time >= 1 ms)
+                let ok = match prev {
+                    None => true,
+                    Some((_, _, plast)) => s_b + mints > plast + 1000,
+                };
+                if ok || tries > 50 {
+                    if !ok {
+                        s_b = prev.unwrap().2 + 1001;
+                    }
+                    break;
+                }
+            }
+            let mut msgs: Vec<(usize, usize, u64, u64)> = ts.iter().map(|x| (e, b as usize, s_b + x * 100, *x)).collect();
+            // any order inside the boot
+            for i in (1..msgs.len()).rev() {
+                let j = rng.below(i as u64 + 1) as usize;
+                msgs.swap(i, j);
+            }
+            st.extend(msgs);
+            prev = Some((s_b, s_b + maxts, s_b + maxts));
+        }
+        streams.push(st);
+    }
+    let mut out = vec![];
+    let mut ix = vec![0usize; necu];
+    loop {
+        let avail: Vec<usize> = (0..necu).filter(|e| ix[*e] < streams[*e].len()).collect();
+        if avail.is_empty() {
+            break;
+        }
+        let e = avail[rng.below(avail.len() as u64) as usize];
+        let m = streams[e][ix[e]];
+        out.push(format!("{},{},{},1,0,{}", m.0, m.2, m.3, m.1));
+        ix[e] += 1;
+    }
+    out.join(";")
+}
+
+impl Area for Lc8 {
+    fn gen(&self, rng: &mut Rng, tier: u32) -> String {
+        gen_clean(rng, tier)
     }
     fn run(&self, case: &str) -> String {
         run_msgs(&parse_case(case))
